@@ -12,7 +12,7 @@
    NOT proved: the timed part of the refinement (that the history equals the specification's expected_history instant
    by instant); checked on every run. *)
 From PS Require Import Lib.Base Generated.Consts Model.SdTypes Model.Config Model.Session Model.StackTypes Model.Stack
-  Model.StackIO Spec.TraceSpec Spec.StoreSpec Proofs.StoreSpecProofs Proofs.StackOpsProofs Proofs.KeyEquiv Proofs.WorldInv Proofs.WorldInv2 Proofs.WorldSubs.
+  Model.StackIO Spec.TraceSpec Spec.StoreSpec Proofs.StoreSpecProofs Proofs.StackOpsProofs Proofs.KeyEquiv Proofs.WorldInv Proofs.WorldInv2 Proofs.WorldSubs Model.Skel Generated.LogicGen Proofs.GenSkel.
 
 Theorem C06_history_alternates : forall touches t_end e,
   expected_history touches t_end = Some e -> alternates true (map snd e) = true.
@@ -63,6 +63,13 @@ Example C06_alt_ok_example :
   /\ alt_ok [(2, EUnsubscribed 1 s 7); (1, ESubscribed 1 s 7 false)] = false.
 Proof. exact alt_ok_example. Qed.
 
+(* a lost connection reaches subscriber, discovery and announcer through call_soon, in that order: the control flow
+   translated from the source text of sd.py on every run *)
+Theorem C06_connection_lost_is_the_translated_source : forall w,
+  connection_lost w = fold_left (run_ract 0) gen_connection_lost w.
+Proof. exact connection_lost_is_the_translated_source. Qed.
+
+Print Assumptions C06_connection_lost_is_the_translated_source.
 Print Assumptions C06_truthful_alternating_history_on_the_stack.
 Print Assumptions C06_kept_by_refresh.
 Print Assumptions C06_kept_by_stop.
